@@ -18,21 +18,27 @@ Ltac rsimpl :=
        rs_bits rs_ctx rs_eof rs_err rs_lst rs_field rs_annots rs_val r_clear fst snd] in *.
 
 (* ---- the reader's table and the spec's context ----------------------------------------------------------------------- *)
+Lemma ctx_slot_lt : forall ctx i x, ctx_slot ctx i = Some x -> i < ctx_size ctx.
+Proof.
+  induction ctx as [|g r IH]; intros i x; cbn [ctx_slot ctx_size fold_right]; [discriminate|].
+  fold (ctx_size r). destruct (i <? seg_size g) eqn:E; [lia|]. intros H. specialize (IH _ _ H). lia.
+Qed.
+
 Definition TC (tab : rlst) (ctx : symctx) : Prop :=
-  N.of_nat (length ctx) < two63 /\ lst_max_id tab = N.of_nat (length ctx) /\
+  ctx_size ctx < two63 /\ lst_max_id tab = ctx_size ctx /\
   forall sid, lst_find_by_id tab sid =
     if sid =? 0 then None
-    else match nth_error ctx (N.to_nat (sid - 1)) with Some (Some t) => Some t | _ => None end.
+    else match ctx_slot ctx (sid - 1) with Some (Some t) => Some t | _ => None end.
 
 Lemma TC_sys : TC LSys system_ctx.
 Proof.
   split; [unfold two63; cbn; lia|]. split; [reflexivity|]. intros sid.
-  unfold lst_find_by_id, imp_find_by_id, sys_imp, system_ctx. cbn [im_syms]. rewrite system_len.
+  unfold lst_find_by_id, imp_find_by_id, sys_imp, system_ctx. cbn [im_syms ctx_slot seg_size]. rewrite map_length, system_len.
   destruct (sid =? 0) eqn:E0; [reflexivity|]. cbn [orb].
   destruct (N.of_nat 9 <? sid) eqn:E9.
-  - rewrite nth_error_map. replace (nth_error system_symbols (N.to_nat (sid - 1))) with (@None text); [reflexivity|].
-    symmetry. apply nth_error_None. rewrite system_len. lia.
-  - rewrite nth_error_map. destruct (nth_error system_symbols (N.to_nat (sid - 1))); reflexivity.
+  - replace (sid - 1 <? N.of_nat 9) with false by lia. reflexivity.
+  - replace (sid - 1 <? N.of_nat 9) with true by lia. rewrite nth_error_map.
+    destruct (nth_error system_symbols (N.to_nat (sid - 1))); reflexivity.
 Qed.
 
 Definition tok_of_sym (y : symv) (sid : N) : tok :=
@@ -43,14 +49,14 @@ Lemma resolve_tok tab ctx sid y : TC tab ctx -> resolve_sid ctx sid = Some y ->
   lst_find_by_id tab sid = tk_text (tok_of_sym y sid) /\ (forall n, y = SymSid n -> n = sid) /\ sid < two63.
 Proof.
   intros (Hlen & Hmax & Hfind) Hr. unfold resolve_sid in Hr.
-  assert (Hs : sid <= N.of_nat (length ctx)).
-  { destruct (sid =? 0) eqn:E0; [lia|]. destruct (N.of_nat (length ctx) <? sid) eqn:E1; [discriminate|lia]. }
+  assert (Hs : sid <= ctx_size ctx).
+  { destruct (sid =? 0) eqn:E0; [lia|]. destruct (ctx_slot ctx (sid - 1)) as [x|] eqn:E1; [|discriminate].
+    pose proof (ctx_slot_lt _ _ _ E1). lia. }
   assert (Hok : sid_ok tab sid = true) by (unfold sid_ok; rewrite Hmax; lia).
   assert (Ht : lst_find_by_id tab sid = tk_text (tok_of_sym y sid) /\ (forall n, y = SymSid n -> n = sid)).
   { rewrite Hfind. destruct (sid =? 0) eqn:E0.
     - inversion Hr; subst. split; [reflexivity|]. intros n H. inversion H. lia.
-    - destruct (N.of_nat (length ctx) <? sid); [discriminate|].
-      destruct (nth_error ctx (N.to_nat (sid - 1))) as [[t|]|]; inversion Hr; subst; cbn [tok_of_sym tk_text];
+    - destruct (ctx_slot ctx (sid - 1)) as [[t|]|]; inversion Hr; subst; cbn [tok_of_sym tk_text];
         (split; [reflexivity|]); intros n H; inversion H; reflexivity. }
   destruct Ht as [Ht1 Ht2]. unfold tok_by_sid. rewrite Hok, Ht1. repeat split; auto. lia.
 Qed.
